@@ -273,18 +273,13 @@ impl LiveNode {
         // assembled high QC for a block not voted before
         let mut leader_votes: Vec<(Digest, Round)> = Vec::new();
         {
-            let vd_to_block: BTreeMap<Digest, Arc<Block>> = uni
-                .all_blocks()
-                .into_iter()
-                .map(|b| (vote_digest(&b.digest(), b.round), b))
-                .collect();
             for (round, vd, _w, signers) in &post.votes {
                 if signers.contains(&my_name) {
                     let before = pre.votes.iter().any(|(r, d, _, s)| r == round && d == vd && s.contains(&my_name));
                     // its own earlier wire vote handed back to it is not a new signature
                     let echoed = matches!(delivered, Some(ConsensusMessage::Vote(v)) if v.author == my_name && vote_digest(&v.hash, v.round) == *vd);
                     if !before && !echoed {
-                        match vd_to_block.get(vd) {
+                        match uni.block_by_vote_digest(vd) {
                             Some(b) => leader_votes.push((b.digest(), *round)),
                             None => leader_votes.push((vd.clone(), *round)),
                         }
